@@ -39,6 +39,21 @@ def setup_manager(am: MD.AnalyticModel, Tn: float, high: str, low: str, M: int =
     return m
 
 
+def resetup(m, am, Tn, high, low, Tscale=None, fscale=None, guess_jitter=(1.05, 0.97)):
+    """Move an EXISTING manager on to another model / parameter point (register + setupThermodynamicsHydrodynamics) with
+    inputs bit-identical to those setup_manager would use - the way a scan over benchmark points re-uses one manager."""
+    import WallGo
+
+    m.registerModel(MD.make_model(am))
+    ph = phase_info(am, Tn, high, low, guess_jitter)
+    Tscale = 0.1 * Tn if Tscale is None else Tscale
+    fscale = [0.1 * Tn] * am.nf if fscale is None else fscale
+    m.setupThermodynamicsHydrodynamics(
+        ph, WallGo.VeffDerivativeSettings(temperatureVariationScale=float(Tscale), fieldValueVariationScale=[float(x) for x in np.atleast_1d(fscale)])
+    )
+    return m
+
+
 def phase_info(am, Tn, high, low, guess_jitter=(1.05, 0.97)):
     """PhaseInfo with guesses deliberately off the exact minima (the manager has to find them), displaced along the line
     joining the two phases, which is covariant under units, permutations, reflections and translations of field space."""
